@@ -32,6 +32,7 @@ def textbook(meth, conv, x, d=None):
     if meth == 'toInvAngstrom': return x / (dcM * 1e10)
     if meth == 'toInvNanometer': return x / (dcM * 1e9)
     if meth == 'toConcentration': return x / ((dcM * 10.0) ** 3 * NA)
+    if isinstance(d, list): d = np.array(d, dtype=float)[:x.size] if x.size > 1 else float(d[0])
     return x * math.pi * d ** 3 / 6.0
 
 DIMS = {'toKelvin': '[temperature]', 'toCelcius': '[temperature]', 'toInvAngstrom': '1/[length]', 'toInvNanometer': '1/[length]',
@@ -40,7 +41,9 @@ UNITS = {'toKelvin': 'kelvin', 'toCelcius': 'degree_Celsius', 'toInvAngstrom': '
 
 def call(uc, meth, x, d):
     f = getattr(uc, meth)
-    return f(x, d) if meth == 'toVolumeFraction' else f(x)
+    if meth != 'toVolumeFraction': return f(x)
+    if isinstance(d, list): d = np.array(d, dtype=float)[:np.size(x)] if np.size(x) > 1 else float(d[0])          # one diameter per site type
+    return f(x, d)
 
 def mag(q):
     return np.atleast_1d(np.asarray(q.magnitude if hasattr(q, 'magnitude') else q, dtype=float))
@@ -50,7 +53,8 @@ def suite_convert(ctx, case):
     def num(v, how):
         # characteristic values as they come out of an analysis: numpy scalars (array.mean(), array[i]) are numbers too
         return np.float64(v) if how == 'np' else np.array([v, v]).mean() if how == 'mean' else v
-    ucs = [UnitConverter(dc=num(c['dc'], c.get('numtype')), dc_unit=c['dc_unit'], ec=num(c['ec'], c.get('numtype')), ec_unit=c['ec_unit']) for c in convs]
+    ucs = [UnitConverter(num(c['dc'], c.get('numtype')), c['dc_unit'], 14.02, 'gram/mole', num(c['ec'], c.get('numtype')), c['ec_unit']) if c.get('positional')      # the documented positional order
+           else UnitConverter(dc=num(c['dc'], c.get('numtype')), dc_unit=c['dc_unit'], ec=num(c['ec'], c.get('numtype')), ec_unit=c['ec_unit']) for c in convs]
     drv = ctx.drv
     for ci, meth, arg, d in case['calls']:
         conv = convs[ci]; uc = ucs[ci]
@@ -71,7 +75,8 @@ def suite_convert(ctx, case):
         m = mag(q); xs = np.atleast_1d(np.asarray(x, dtype=float))
         dcM, ecJ = si(conv)
         if meth == 'toVolumeFraction':
-            ml = drv.ask('uc.phi %s %s' % (f2h(d), fl(xs)))
+            if isinstance(d, list): ml = ' '.join(drv.ask('uc.phi %s %s' % (f2h(dv), f2h(xv))) for dv, xv in zip((d[:xs.size] if xs.size > 1 else d[:1]), xs))
+            else: ml = drv.ask('uc.phi %s %s' % (f2h(d), fl(xs)))
         else:
             code = {'toKelvin': 'K', 'toCelcius': 'C', 'toInvAngstrom': 'invA', 'toInvNanometer': 'invnm', 'toConcentration': 'conc'}[meth]
             ml = drv.ask('uc %s %s %s %s %s %s' % (code, f2h(dcM), f2h(ecJ), f2h(KB), f2h(NA), fl(xs)))
@@ -107,7 +112,7 @@ def suite_convert(ctx, case):
             sc = np.maximum(np.abs(rhs), np.abs(a) * np.abs(mag(call(uc, meth, xs, d))) + np.abs(mag(call(uc, meth, y, d)))) + 1e-300
             ctx.pred('convert', sub, bool(np.all(np.abs(lhs - rhs) <= 1e-11 * sc + 1e-9 * (meth == 'toCelcius'))), '%s is not %s' % (meth, 'affine' if meth == 'toCelcius' else 'linear'), key='C17:linear:' + meth)
             if xs.size > 1:
-                each = np.array([mag(call(uc, meth, float(v), d))[0] for v in xs])
+                each = np.array([mag(call(uc, meth, float(v), ([d[i]] if isinstance(d, list) else d)))[0] for i, v in enumerate(xs)])
                 ctx.pred('convert', sub, bool(np.all(np.abs(each - m) <= 1e-13 * np.abs(m) + 1e-12)), '%s on an array differs from element-by-element conversion' % meth, key='C17:elementwise')
         except Exception as e:
             ctx.pred('convert', sub, False, '%s raised in the linearity probe: %r' % (meth, e), key='C17:raises:' + meth)
@@ -118,7 +123,7 @@ def gen_conv(rng):
     digits = rng.choice([3, 6, 10, 12])
     return {'dc': float(('%%.%dg' % digits) % (10 ** rng.uniform(-1, 1.5))), 'dc_unit': rng.choice(list(LEN)[:3] if rng.random() < 0.9 else ['meter']),
             'ec': float(('%%.%dg' % digits) % (10 ** rng.uniform(-2, 2) * rng.choice([1.0, 2.4943387854]))), 'ec_unit': rng.choice(list(EN)),
-            'numtype': rng.choice([None, None, 'np', 'mean'])}
+            'numtype': rng.choice([None, None, 'np', 'mean']), 'positional': rng.random() < 0.3}
 
 def generate(ctx):
     rng = ctx.rng
@@ -141,7 +146,9 @@ def generate(ctx):
             elif c0 < 0.6: arg = rng.randint(1, 40)                                              # a Python int
             elif c0 < 0.72: arg = [rng.randint(1, 40) for _ in range(rng.randint(2, 6))]          # an integer-typed array (np.arange(1, 5))
             else: arg = [float('%.8g' % (10 ** rng.uniform(-3, 2))) for _ in range(rng.randint(2, 6))]
-            calls.append([rng.randrange(len(convs)), meth, arg, float('%.6g' % rng.uniform(0.3, 3.0))])
+            dd = float('%.6g' % rng.uniform(0.3, 3.0))
+            if meth == 'toVolumeFraction' and rng.random() < 0.4: dd = rng.choice([0.0, [float('%.4g' % rng.uniform(0.3, 3.0)) for _ in range(6)]])
+            calls.append([rng.randrange(len(convs)), meth, arg, dd])
         case = {'convs': convs, 'calls': calls, 'a': float('%.4g' % rng.uniform(-2, 3))}
         ctx.case('convert', case, True, tags=['nconv:%d' % len(convs)] + ['m:' + c[1] for c in calls] + ['dcu:' + c['dc_unit'] for c in convs] + ['ecu:' + c['ec_unit'] for c in convs])
         suite_convert(ctx, case)
